@@ -10,8 +10,14 @@ Definition dflt : elem := mkE 0 0.
 
 (* ---- zseq -------------------------------------------------------------------- *)
 
+Lemma zseq_map_seq a n : zseq a n = map (fun i => a + Z.of_nat i) (seq 0 n).
+Proof.
+  revert a. induction n as [|n IH]; intros a; cbn [zseq seq map]; [reflexivity|].
+  f_equal; [lia|]. rewrite IH, <- seq_shift, map_map. apply map_ext. intros. lia.
+Qed.
+
 Lemma zseq_length a n : length (zseq a n) = n.
-Proof. unfold zseq. rewrite map_length, seq_length. reflexivity. Qed.
+Proof. rewrite zseq_map_seq. rewrite map_length, seq_length. reflexivity. Qed.
 
 Lemma nth_map_lt {A B} (f : A -> B) l k d d0 :
   (k < length l)%nat -> nth k (map f l) d = f (nth k l d0).
@@ -22,19 +28,16 @@ Qed.
 
 Lemma zseq_nth a n i d : (i < n)%nat -> nth i (zseq a n) d = a + Z.of_nat i.
 Proof.
-  intros H. unfold zseq.
+  intros H. rewrite zseq_map_seq.
   rewrite nth_map_lt with (d0 := 0%nat) by (rewrite seq_length; exact H).
   rewrite seq_nth by exact H. reflexivity.
 Qed.
 
 Lemma zseq_S a n : zseq a (S n) = zseq a n ++ [a + Z.of_nat n].
-Proof. unfold zseq. rewrite seq_S, map_app. reflexivity. Qed.
+Proof. rewrite !zseq_map_seq. rewrite seq_S, map_app. reflexivity. Qed.
 
 Lemma zseq_cons a n : zseq a (S n) = a :: zseq (a + 1) n.
-Proof.
-  unfold zseq. cbn [seq map]. f_equal; [lia|].
-  rewrite <- seq_shift, map_map. apply map_ext. intros. lia.
-Qed.
+Proof. reflexivity. Qed.
 
 (* ---- abs ------------------------------------------------------------------------ *)
 
@@ -66,7 +69,7 @@ Lemma abs_ext s1 s2 :
   abs s1 = abs s2.
 Proof.
   intros Hs H. unfold abs. rewrite <- Hs.
-  apply map_ext_in. intros i Hi. apply in_map_iff in Hi. destruct Hi as (k & <- & Hk).
+  apply map_ext_in. intros i Hi. rewrite zseq_map_seq in Hi. apply in_map_iff in Hi. destruct Hi as (k & <- & Hk).
   apply in_seq in Hk. apply H. lia.
 Qed.
 
